@@ -407,6 +407,98 @@ fn main() {
     let rootstr = root.to_str().unwrap().to_string();
     let pre: Vec<String> = rootstr.split('/').filter(|x| !x.is_empty()).map(|x| x.to_string()).collect();
     let (uid, gid) = unsafe { (libc::geteuid(), libc::getegid()) };
+    // --hist N --len L: N seeded multi-step histories run on both backends side by side (chain records k:"ph": every step's
+    // pre-state is the previous step's post-state); a history ends with the step that leaves C02's domain (a link that no longer
+    // resolves to an existing non-link entry)
+    if let Some(n) = arg("hist") {
+        use rand::{rngs::StdRng, Rng, SeedableRng};
+        let n: u64 = n.parse().unwrap_or(10);
+        let len = arg_u64("len", 40);
+        let seed = arg_u64("seed", 1);
+        let std = Stdfs::new();
+        let hnames = ["a", "b", "ab", "\u{e9}"];
+        for h in 0..n {
+            if h % workers != worker {
+                continue;
+            }
+            let mut rng = StdRng::seed_from_u64(seed.wrapping_mul(1_000_003).wrapping_add(h));
+            build_std(&root, &Tree::new());
+            std::env::set_current_dir(&root).unwrap();
+            let m = Memfs::new();
+            let tree0 = observe(&root);
+            let mem0 = memproj::project(&m);
+            let (mut skey, mut mkey) = (to_ascii_json(&tree0), to_ascii_json(&mem0));
+            let mut cur = tree0.clone();
+            let mut steps = vec![];
+            for i in 0..len {
+                // the entries of the real tree as the observer sees them: (path, kind)
+                let ents: Vec<(String, String)> = cur["e"].as_array().unwrap().iter()
+                    .map(|e| (format!("/{}", e["p"].as_array().unwrap().iter().map(|x| x.as_str().unwrap()).collect::<Vec<_>>().join("/")), e["k"].as_str().unwrap().to_string())).collect();
+                let dirs: Vec<&String> = ents.iter().filter(|e| e.1 == "d" && e.0.matches('/').count() < 3).map(|e| &e.0).collect();
+                let mut pick = |rng: &mut StdRng| -> String {
+                    if rng.gen_bool(0.45) && ents.len() > 1 {
+                        ents[rng.gen_range(1..ents.len())].0.clone()
+                    } else {
+                        let d = dirs[rng.gen_range(0..dirs.len())];
+                        let nm = hnames[rng.gen_range(0..hnames.len())];
+                        if d == "/" { format!("/{}", nm) } else { format!("{}/{}", d, nm) }
+                    }
+                };
+                let (a, b) = (pick(&mut rng), pick(&mut rng));
+                let data: &[u8] = [b"".as_slice(), b"x", b"l1\nl2", b"\xff\xfe", b"h\xc3\xa9"][rng.gen_range(0..5)];
+                let c = match rng.gen_range(0..30) {
+                    0 | 1 => call("mkfile", &a, ""),
+                    2 | 3 | 4 => call("mkdir_p", &a, ""),
+                    5 => call_m("mkdir_m", &a, [0o700, 0o755, 0o750][rng.gen_range(0..3)], 0),
+                    6 => call_m("mkfile_m", &a, [0o600, 0o644, 0o755][rng.gen_range(0..3)], 0),
+                    7 | 8 => call_d("write_all", &a, data),
+                    9 | 10 => call_d("append_all", &a, data),
+                    11 => call_ls("write_lines", &a, &["one", "", "two"]),
+                    12 => call("remove", &a, ""),
+                    13 => call("remove_all", &a, ""),
+                    14 => call_m("chmod", &a, [0o755, 0o700, 0o644, 0o600][rng.gen_range(0..4)], 0),
+                    15 => call_b("chmod_b", &a, "", 0, 0, ["f:u+x", "a:go-w", "d:a=rx,f:a=r"][rng.gen_range(0..3)], ["s", "sR"][rng.gen_range(0..2)]),
+                    16 | 17 => call("move_p", &a, &b),
+                    18 | 19 => call("copy", &a, &b),
+                    20 | 21 => call("symlink", &a, &b),
+                    _ => call(["exists", "is_dir", "is_file", "is_symlink", "is_symlink_dir", "is_symlink_file", "mode", "read_all", "read_lines", "readlink", "readlink_abs",
+                               "paths", "all_paths", "all_files", "entry", "is_exec", "is_readonly"][rng.gen_range(0..17)], &a, ""),
+                };
+                // never the sandbox root as a mutation source / target (it is not a filesystem root)
+                let is_query = !["mkfile", "mkdir_p", "mkdir_m", "mkfile_m", "write_all", "append_all", "write_lines", "remove", "remove_all", "chmod", "chmod_b", "move_p", "copy", "symlink"].contains(&c["op"].as_str().unwrap());
+                if !is_query && (a == "/" || (["move_p", "copy", "symlink"].contains(&c["op"].as_str().unwrap()) && b == "/" && c["op"] == "symlink")) {
+                    continue;
+                }
+                prog.mark(h * 1000 + i, &format!("hist#{} {}", h, to_ascii_json(&c)));
+                let mut rs = apply(&std, &sandboxed(&c, &rootstr));
+                strip_result(&mut rs, &pre);
+                let _ = std::env::set_current_dir(&root);
+                let post_s = observe(&root);
+                let k2 = to_ascii_json(&post_s);
+                let std_side = if k2 == skey { json!({"r": rs, "same": "t", "post": []}) } else { json!({"r": rs, "same": "f", "post": post_s.clone()}) };
+                let rm = apply(&m, &c);
+                let post_m = memproj::project(&m);
+                let k3 = to_ascii_json(&post_m);
+                let mem_side = if k3 == mkey { json!({"r": rm, "same": "t", "post": []}) } else { json!({"r": rm, "same": "f", "post": post_m}) };
+                steps.push(json!({"c": c, "skipped": "-", "mem": mem_side, "std": std_side}));
+                skey = k2;
+                mkey = k3;
+                cur = post_s;
+                // still inside the domain?  every link resolves to an existing entry that is not a link
+                let es = cur["e"].as_array().unwrap();
+                let kind_of = |p: &Value| es.iter().find(|e| &e["p"] == p).map(|e| e["k"].as_str().unwrap_or("").to_string());
+                let out_of_domain = es.iter().any(|e| e["k"].as_str().unwrap_or("").starts_with('l') && !matches!(kind_of(&e["alt"]), Some(k) if !k.starts_with('l')));
+                if out_of_domain {
+                    break;
+                }
+            }
+            out.rec(&json!({"k": "ph", "tree": tree0, "memtree": mem0, "own": {"uid": uid, "gid": gid}, "steps": steps}));
+        }
+        let _ = std::env::set_current_dir("/");
+        force_remove(&sandbox);
+        out.finish();
+        return;
+    }
     let names = ["a", "b"];
     let paths = ["/", "/a", "/b", "/a/a", "/a/b", "/b/a", "/b/b"];
     let mut trees = base_trees(&names);
